@@ -37,6 +37,11 @@ def isSub (p : Cps) : Cps → Bool
 def startsWith (s p : Cps) : Bool := p.isPrefixOf s
 def endsWith (s p : Cps) : Bool := p.isSuffixOf s
 
+/-- `x in (a, b, …)` for a tuple of strings -/
+def elemOf (x : Cps) : List Cps → Bool
+  | [] => false
+  | y :: t => x == y || elemOf x t
+
 /-- `c in s` for a single code point -/
 def hasCp (c : Nat) (s : Cps) : Bool := s.contains c
 
@@ -277,54 +282,80 @@ def Val.isStr (v : Val) (s : Cps) : Bool :=
   | .str x => x == s
   | _ => false
 
+/-! `New.append` (selector.py:66-147), in four parts -/
+
+/-- :90-97 which prefix applies: the saved `_PREFIX`, or the part before `|` of a `universal` value -/
+def takePrefix (pfx : Option Cps) (val : Val) (typ : Cps) : M (Option Cps × Val) :=
+  match pfx with
+  | some p => pure (some p, val)
+  | none =>
+    match val with
+    | .str s =>
+      if typ == tyUniversal && hasCp 124 s then
+        match splitOn 124 s with
+        | [p, v] => pure (some p, .str v)
+        | _ => throw .valueError                                          -- `prefix, val = val.split('|')`
+      else pure (none, val)
+    | _ => pure (none, val)
+
+/-- `not prefix` -/
+def noPrefix (prefix? : Option Cps) : Bool :=
+  match prefix? with
+  | none => true
+  | some p => p.isEmpty
+
+/-- :100-102 does the value become a `(namespaceURI, name)` tuple? -/
+def needsNs (typ : Cps) (prefix? : Option Cps) : Bool :=
+  (endsWith typ sfxSelector || typ == tyUniversal) && !(typ == tyAttrSel && noPrefix prefix?)
+
+/-- :104-117 the namespace URI for a prefix; `none` = the prefix is not declared (:119-126) -/
+def resolveNs (ns : NsMap) (prefix? : Option Cps) : Option Uri :=
+  match prefix? with
+  | none => some (match nsGet ns [] with | some u => .uri u | none => .none)
+  | some p =>
+    if p == [42] then some .any
+    else if p.isEmpty then some (.uri [])
+    else match nsGet ns p with
+      | some u => some (.uri u)
+      | none => none
+
+/-- :132 `not context or context == 'negation'` -/
+def countsIn (context : Cps) : Bool := context.isEmpty || context == cxNegation
+
+def incB (context typ : Cps) : Nat :=                                     -- :133-134
+  if countsIn context && typ == tyId then 1 else 0
+def incC (context typ : Cps) (val : Val) : Nat :=                         -- :135-136
+  if countsIn context && !(typ == tyId) && (typ == tyClass || val.isStr [91]) then 1 else 0
+def incD (context typ : Cps) (val : Val) : Nat :=                         -- :137-142
+  if countsIn context && !(typ == tyId) && !(typ == tyClass || val.isStr [91]) && elemOf typ dTypes then 1 else 0
+
+/-- :131-147 count, set `element`, append the item -/
+def pushItem (context : Cps) (st : St) (val : Val) (typ : Cps) : St :=
+  { st with
+    b := st.b + incB context typ
+    c := st.c + incC context typ val
+    d := st.d + incD context typ val
+    element := if context.isEmpty && (typ == tyTypeSel || typ == tyUniversal) then some val else st.element
+    rseq := ⟨val, typ⟩ :: st.rseq }
+
 /-- `New.append` (selector.py:66-147). `val` is a string except for comments. -/
 def append (ns : NsMap) (st : St) (val : Val) (typ : Cps) : M St := do
   let context ← top st                                                    -- :78
   if typ == tyPREFIX then                                                 -- :84-88
     match val with
-    | .str s => return { st with pfx := some s.dropLast }
+    | .str s => pure { st with pfx := some s.dropLast }
     | _ => throw .typeError
-  -- :90-97
-  let (prefix?, val, st) ←
-    match st.pfx with
-    | some p => pure (some p, val, { st with pfx := none })
-    | none =>
-      match val with
-      | .str s =>
-        if typ == tyUniversal && hasCp 124 s then
-          match splitOn 124 s with
-          | [p, v] => pure (some p, Val.str v, st)
-          | _ => throw .valueError                                        -- `prefix, val = val.split('|')`
-        else pure (none, val, st)
-      | _ => pure (none, val, st)
-  -- :100-129 namespace
-  let noPrefix := match prefix? with | none => true | some p => p.isEmpty
-  let (val, stop, st) ←
-    if (endsWith typ sfxSelector || typ == tyUniversal) && !(typ == tyAttrSel && noPrefix) then
-      match val with
+  else do
+    let pv ← takePrefix st.pfx val typ                                    -- :90-97
+    let st := { st with pfx := none }
+    if needsNs typ pv.1 then                                              -- :100-129
+      match pv.2 with
       | .str name =>
-        match prefix? with
-        | none => pure (Val.ns (match nsGet ns [] with | some u => .uri u | none => .none) name, false, st)
-        | some p =>
-          if p == [42] then pure (Val.ns .any name, false, st)
-          else if p.isEmpty then pure (Val.ns (.uri []) name, false, st)
-          else match nsGet ns p with
-            | some u => pure (Val.ns (.uri u) name, false, st)
-            | none => pure (val, true, { st with wf := false })           -- :119-126 unknown prefix: return
-      | _ => pure (val, false, st)
-    else pure (val, false, st)
-  if stop then return st
-  -- :131-142 specificity
-  let st :=
-    if context.isEmpty || context == cxNegation then
-      if typ == tyId then { st with b := st.b + 1 }
-      else if typ == tyClass || val.isStr [91] then { st with c := st.c + 1 }
-      else if dTypes.contains typ then { st with d := st.d + 1 }
-      else st
-    else st
-  -- :143-145 element
-  let st := if context.isEmpty && (typ == tyTypeSel || typ == tyUniversal) then { st with element := some val } else st
-  return { st with rseq := ⟨val, typ⟩ :: st.rseq }                        -- :147
+        match resolveNs ns pv.1 with
+        | some u => pure (pushItem context st (.ns u name) typ)
+        | none => pure { st with wf := false }                            -- unknown prefix: `return`
+      | v => pure (pushItem context st v typ)
+    else pure (pushItem context st pv.2 typ)
 
 def fail (st : St) : M St := pure { st with wf := false }
 
@@ -379,7 +410,7 @@ def cbPseudo (ns : NsMap) (st : St) (t : Tok) : M St := do                -- :20
   let val := normalize t.val
   let typ := t.typ.name
   if has kwPseudo st then
-    let typ := if legacyPseudoElements.contains val then tyPseudoElement else typ
+    let typ := if elemOf val legacyPseudoElements then tyPseudoElement else typ
     let st ← append ns st (.str val) typ
     if endsWith val [40] then
       pure { st with ctx := typ :: st.ctx, expected := c_expressionstart }
@@ -612,8 +643,17 @@ def usedNamespaces (ns : NsMap) (seq : List Item) : M NsMap := do
   let uris ← usedUris seq
   pure (ns.filter fun pu => uris.contains (.uri pu.2))
 
-/-- the result of `Selector._setSelectorText` on a fresh selector: `none` = rejected (nothing set) -/
-def finish (ns : NsMap) (st : St) : M (Option SelRec) := do
+/-- what the post-conditions (selector.py:728-754) let through: counts, `seq`, `element` -/
+structure SelCore where
+  b : Nat
+  c : Nat
+  d : Nat
+  seq : List Item
+  element : Option Val
+deriving DecidableEq, Repr
+
+/-- the four post-conditions and the removal of a trailing blank item; `none` = not wellformed -/
+def finishCore (st : St) : Option SelCore :=
   let wf := st.wf
   let wf := if st.ctx.length > 1 || st.rseq.isEmpty then false else wf   -- :729
   let wf := if st.expected == c_element_name then false else wf          -- :736
@@ -624,19 +664,28 @@ def finish (ns : NsMap) (st : St) : M (Option SelRec) := do
         | .str s => if isBlank s then r else st.rseq
         | _ => st.rseq)
     | [] => []
-  if wf then
-    let seq := rseq.reverse
-    let used ← usedNamespaces ns seq
-    pure (some { b := st.b, c := st.c, d := st.d, seq := seq, element := st.element, nsUsed := used })
-  else pure none
+  if wf then some { b := st.b, c := st.c, d := st.d, seq := rseq.reverse, element := st.element } else none
 
-/-- `Selector((tokens, namespaces))`: tokenize2 → `_prepare_tokens` → `_parse` → post-conditions.
+/-- `_prepare_tokens`, `_parse`, post-conditions -/
+def parseCore (ns : NsMap) (toks : List Tok) : M (Option SelCore) := do
+  let st ← run ns {} (prepare toks)
+  pure (finishCore st)
+
+/-- the commit (selector.py:757-763): `none` = rejected (nothing set) -/
+def commit (ns : NsMap) (r : Option SelCore) : M (Option SelRec) :=
+  match r with
+  | some r => do
+    let used ← usedNamespaces ns r.seq
+    pure (some { b := r.b, c := r.c, d := r.d, seq := r.seq, element := r.element, nsUsed := used })
+  | none => pure none
+
+/-- `Selector((tokens, namespaces))` on a fresh selector.
 An empty token list is "No selectorText given" (selector.py:709-711). -/
 def parseSel (ns : NsMap) (toks : List Tok) : M (Option SelRec) :=
   if toks.isEmpty then pure none
   else do
-    let st ← run ns {} (prepare toks)
-    finish ns st
+    let r ← parseCore ns toks
+    commit ns r
 
 /-! ## serialisation of a selector (serialize.py:833-874, Out.append 200-307, Out.value 309-315)
 
